@@ -199,6 +199,9 @@ def replay(beh, flavour, clauses=None):
                 if gt != et and nd.k not in ("Py26", "Py27", "Tw"):
                     out.append(dict(clause="c17_observed", step=step, node=i, expected=et, observed=gt, startless=startless,
                                     run=sum(1 for x in hist[: step + 1] if x["c"]["op"] == "startTestRun")))
+                    if nd.k == "ByTest":
+                        # C08 says it too: the one callback per test carries that test's tags
+                        out.append(dict(clause="c08_bytest", step=step, node=i, expected=et, observed=gt, what="tags"))
                 # tags()/time() events as such are mechanism, not property: drift only
                 gm = [(e["e"], e["n"], e["g"], e["v"]) for e in got if e["e"] in ("tags", "time")]
                 em = [(e["e"], sorted(e["n"]), sorted(e["g"]), e["v"]) for e in exp if e["e"] in ("tags", "time")]
@@ -288,6 +291,11 @@ def signature(beh, flavour, d):
         oflat = {x for t in obs for x in t}
         o = "lost" if oflat < eflat else "extra" if oflat > eflat else "differs"
         return "%s:leaf=%s:under=%s:%s:%s" % (cl, kind, under(st, i), feats, o)
+    if d.get("what") == "tags":
+        eflat = {x for t in d["expected"] for x in t}
+        oflat = {x for t in obs for x in t}
+        o = "lost" if oflat < eflat else "extra" if oflat > eflat else "differs"
+        return "%s:tags:leaf=%s:under=%s:%s" % (cl, kind, under(st, i), o)
     o = "missing" if len(obs) < len(d["expected"]) else "extra" if len(obs) > len(d["expected"]) else "differs"
     return "%s:%s:leaf=%s:under=%s:%s" % (cl, callclass, kind, under(st, i), o)
 
@@ -567,8 +575,8 @@ SIMT = dict(simulate=dict(num=1500, depth=40), workers=8)
 # (config, kinds of test objects per behaviour | NOREPLAY | name of the invariant/property TLC must report violated, TLC options)
 PLANS = {
     "C08": {
-        "quick": [("rs_mcA3.cfg", NOREPLAY, {}), ("rs_expA.cfg", all3, {}), ("rs_expA0.cfg", tc_ph, {}), ("rs_expB.cfg", tc_ph, {}), ("rs_sim.cfg", tc_ph, SIMQ)],
-        "thorough": [("rs_mcA3.cfg", NOREPLAY, {}), ("rs_mcA3all.cfg", NOREPLAY, {}), ("rs_expA.cfg", every3, {}), ("rs_expA0.cfg", every3, {}), ("rs_expB3.cfg", tc_ph, {}),
+        "quick": [("rs_mcAq.cfg", NOREPLAY, {}), ("rs_expA.cfg", all3, {}), ("rs_expA0.cfg", tc_ph, {}), ("rs_expA1.cfg", tc_ph, {}), ("rs_expB.cfg", tc_ph, {}), ("rs_sim.cfg", tc_ph, SIMQ)],
+        "thorough": [("rs_mcA3.cfg", NOREPLAY, {}), ("rs_mcA3all.cfg", NOREPLAY, {}), ("rs_expA.cfg", every3, {}), ("rs_expA0.cfg", every3, {}), ("rs_expA1.cfg", tc_ph, {}), ("rs_expB3.cfg", tc_ph, {}),
                      ("rs_expB2.cfg", tc_ph, {}), ("rs_sim.cfg", tc_ph, SIMT)],
     },
     "C04": {
